@@ -20,4 +20,56 @@ theorem traitsCompare_shift (x y : Nat) (a b : Str) (n i : Nat) :
   | zero => rfl
   | succ n ih => simp [traitsCompare, ih]
 
+
+theorem traitsFind_shift (y : Nat) (s : Str) (tok n i : Nat) :
+    traitsFind (y :: s) tok n (i + 1) = traitsFind s tok n i := by
+  induction n generalizing i with
+  | zero => rfl
+  | succ n ih => simp [traitsFind, ih]
+
+theorem traitsFind_eq (s : Str) (tok : Nat) : traitsFind s tok s.length 0 = .ok (s.contains tok) := by
+  induction s with
+  | nil => simp [traitsFind]
+  | cons y s ih =>
+    simp only [List.length_cons, traitsFind, rd_cons_zero, ok_bind, traitsFind_shift, ih, List.contains_cons]
+    by_cases h : y = tok
+    · subst h; simp
+    · have h' : (y == tok) = false := by simpa using h
+      have h'' : (tok == y) = false := by simpa using fun e => h e.symm
+      simp [h', h'']
+
+
+theorem cmp_eq_zero_iff (a b : Str) : Spec.cmp a b = 0 ↔ a = b := by
+  induction a generalizing b with
+  | nil => cases b <;> simp [Spec.cmp]
+  | cons x a ih =>
+    cases b with
+    | nil => simp [Spec.cmp]
+    | cons y b =>
+      simp only [Spec.cmp, List.cons.injEq]
+      by_cases h1 : x < y
+      · simp [h1]; omega
+      · by_cases h2 : x > y
+        · simp [h1, h2]; omega
+        · have : x = y := by omega
+          simp [ih, this]
+
+/-- the inner comparison lambda of `find` -/
+theorem findInner_eq (h : Str) (outer : Nat) (cs : Str) (inner : Nat)
+    (hb : outer + inner + cs.length ≤ h.length) :
+    findInner h outer cs inner = .ok (cs.isPrefixOf (h.drop (outer + inner))) := by
+  induction cs generalizing inner with
+  | nil => simp [findInner]
+  | cons c cs ih =>
+    have hlt : outer + inner < h.length := by simp at hb; omega
+    rw [List.drop_eq_getElem_cons hlt]
+    simp only [findInner, rd_ok hlt, ok_bind, List.isPrefixOf_cons_cons]
+    by_cases hc : h[outer + inner] = c
+    · simp only [hc, bne_self_eq_false, Bool.false_eq_true, if_false, beq_self_eq_true, Bool.true_and]
+      have := ih (inner + 1) (by simp at hb; omega)
+      rw [this, Nat.add_assoc]
+    · have h1 : (h[outer + inner] != c) = true := by simpa using hc
+      have h2 : (c == h[outer + inner]) = false := by simpa using fun e => hc e.symm
+      simp [h1, h2]
+
 end Tetl.C08
